@@ -754,7 +754,7 @@ fn main() {
                         let c = cfg(id);
                         for src in &srcs {
                             for lit in &lits {
-                                for mask in [full, 1, 2, 4, 8, 16, 32, 64, 3, 0] {
+                                for mask in [full, 1, 2, 4, 8, 32, 0] {
                                     run_bundle(&c, l, mask, src, lit);
                                 }
                             }
@@ -767,7 +767,7 @@ fn main() {
                     let (ca, cb) = (cfg(a), cfg(b));
                     for src in &srcs {
                         for lit in &lits_for(l.id, true) {
-                            for mask in [full, 1, 2, 5] {
+                            for mask in [full, 5] {
                                 if l.base.contains(src) {
                                     run_e2e(&ca, &cb, l, mask & full, src, lit);
                                 }
